@@ -472,7 +472,7 @@ def run(ck: core.Check):
         ck.broken("correspondence", "C14 driver", str(e))
         drv = None
 
-    n_oracle = ck.pick(800, 6000)
+    n_oracle = ck.pick(700, 6000)
     n_collect = ck.pick(400, 4000)
     n_sem = ck.pick(250, 2500)
     tasks = ([(ck.seed, i, "oracle") for i in range(n_oracle)]
